@@ -180,6 +180,7 @@ def exponent_probe(ctx, fam, params, us):
             ctx.fail("oracle", "c10.set_representation.raises", dict(family=fam, params=params, rep=rep.name),
                      {"exception": repr(e)[:300]}, cls=dict(family=fam, ybranch=yb, rep=rep.name))
             return
+    quad = dict(mid=mid_q, tails=tails_q, fv=fv, i0=[])
     for u in us:
         desc = dict(family=fam, params=params, u=[complex(u).real, complex(u).imag])
         if fam == "bs":
@@ -191,6 +192,7 @@ def exponent_probe(ctx, fam, params, us):
         if not converged:
             ctx.branches["c10.exponent_vs_lk:quadrature_not_converged"] += 1
             continue
+        quad["i0"].append((complex(u), i0))
         try:
             impl = complex(m.levy_exponent(u))
         except Exception as e:
@@ -224,6 +226,94 @@ def exponent_probe(ctx, fam, params, us):
                                   "model's drift, diffusion coefficient, density and this representation"},
                          cls=cls, mirrors_model=mirrors)
                 break
+
+
+    return quad
+
+
+def lk_value(uc, a, sigma, rep, q, i0):
+    """Lévy–Khintchine exponent of the triplet (a, sigma, nu, rep) from the representation-independent quadratures"""
+    fv = q["fv"]
+    if rep == R.ONEONE or (rep == R.TILDE and not fv):
+        j = i0
+    elif rep == R.ZERO or (rep == R.TILDE and fv):
+        j = i0 + 1j * uc * (q["mid"] or 0.0)
+    else:
+        j = i0 - 1j * uc * q["tails"]
+    return 1j * uc * a - 0.5 * sigma * sigma * uc * uc + j
+
+
+def exponent_after_walk_probe(ctx, fam, params, walk, q, spot, r, d):
+    """S, history on ONE model object: `set_representation` is called on the model's own triplet; after every step the
+    exponent must be unchanged (the process has not changed), must equal the Lévy–Khintchine integral built from the
+    CURRENT (a, sigma, nu, representation), and the exponential model must still give the forward at -i.
+    `q` = the quadratures of `exponent_probe` (representation-independent)."""
+    em = make(fam, params, exp=True, spot=spot, r=r, d=d)
+    lm = em.levy_model
+    trip = lm.levy_triplet                      # shared with em.levy_triplet
+    yb = ybranch(fam, params)
+    known_branch = fam == "cgmy" and yb in ("y<0", "y=0", "y=1")     # exponent != LK already (known findings): (b) is skipped there
+    desc = dict(family=fam, params=params, walk=walk, spot=spot, r=r, d=d, history=True)
+    cls = dict(family=fam, ybranch=yb, history=True)
+    us = [u for u, _ in q["i0"]] or [-1j, 0.7]
+    i0s = dict(q["i0"])
+    sigma = float(trip.sigma)
+    try:
+        psi0 = [complex(lm.levy_exponent(u)) for u in us]
+        psi0e = [complex(em.levy_exponent(u)) for u in us]
+    except Exception as e:
+        ctx.fail("oracle", "c10.exponent.raises", desc, {"exception": repr(e)[:300]}, cls=cls)
+        return
+    rep_prev = trip.representation
+    changes = 0
+    for i, rv in enumerate(walk):
+        try:
+            trip.set_representation(REPS[rv])
+        except Exception as e:
+            ctx.fail("oracle", "c10.set_representation.raises", desc, {"step": i, "exception": repr(e)[:300]}, cls=cls)
+            return
+        changes += trip.representation != rep_prev
+        rep_prev = trip.representation
+        a_now = float(trip.a)
+        for k, u in enumerate(us):
+            for which, model, ref in (("levy_model", lm, psi0[k]), ("exponential model", em, psi0e[k])):
+                now = complex(model.levy_exponent(u))
+                tol = 1e-12 * (1 + abs(ref) + abs(u) * (abs(a_now) + abs(q["mid"] or 0.0) + abs(q["tails"])))
+                track(ctx, "exponent_after_walk.unchanged", abs(now - ref), tol)
+                if not abs(now - ref) <= tol:
+                    ctx.count("c10.exponent_after_walk", desc, nontrivial=True, branch=fam)
+                    ctx.fail("oracle", "c10.exponent_after_walk", dict(desc, step=i, u=[u.real, u.imag]),
+                             {"what": f"levy_exponent(u) of the {which} changed after set_representation on the model's own triplet: the "
+                                      "process has not changed, only the cut-off convention of its drift",
+                              "before": [ref.real, ref.imag], "after": [now.real, now.imag], "representation_now": trip.representation.name,
+                              "triplet_a_now": a_now, "original_drift": float(lm._original_drift) if hasattr(lm, "_original_drift") else None},
+                             cls=dict(cls, check="unchanged"))
+                    return
+            if u in i0s and not known_branch:
+                now = complex(lm.levy_exponent(u))
+                lk = lk_value(u, a_now, sigma, trip.representation, q, i0s[u])
+                scale = 1 + abs(lk) + abs(u) * (abs(a_now) + abs(q["mid"] or 0.0) + abs(q["tails"]))
+                track(ctx, "exponent_after_walk.lk", abs(now - lk), 2e-10 * scale)
+                if not abs(now - lk) <= 2e-10 * scale:
+                    ctx.count("c10.exponent_after_walk", desc, nontrivial=True, branch=fam)
+                    ctx.fail("oracle", "c10.exponent_after_walk", dict(desc, step=i, u=[u.real, u.imag]),
+                             {"what": "after set_representation, levy_exponent(u) != Lévy–Khintchine integral of the CURRENT triplet "
+                                      "(a, sigma, nu, representation)", "levy_exponent": [now.real, now.imag],
+                              "levy_khintchine_quadrature": [lk.real, lk.imag], "representation_now": trip.representation.name,
+                              "triplet_a_now": a_now}, cls=dict(cls, check="lk"))
+                    return
+        for t in (0.5, 2.0):
+            v = complex(em.log_characteristic_function(t, -1j))
+            fwd = spot * math.exp((r - d) * t)
+            track(ctx, "exponent_after_walk.forward", abs(v - fwd), 1e-11 * fwd)
+            if not abs(v - fwd) <= 1e-11 * fwd:
+                ctx.count("c10.exponent_after_walk", desc, nontrivial=True, branch=fam)
+                ctx.fail("oracle", "c10.exponent_after_walk", dict(desc, step=i, t=t),
+                         {"what": "after set_representation on the model's own triplet, log_characteristic_function(t, -i) != S0 exp((r-d) t)",
+                          "log_characteristic_function(t,-i)": [v.real, v.imag], "forward": fwd, "representation_now": trip.representation.name},
+                         cls=dict(cls, check="forward"))
+                return
+    ctx.count("c10.exponent_after_walk", desc, nontrivial=changes >= 1, branch=f"{fam}:{'lk' if (i0s and not known_branch) else 'unchanged+forward'}")
 
 
 # ------------------------------------------------------------------------------------- S: cumulants vs derivatives
@@ -514,9 +604,17 @@ def run(ctx):
     nu_u = ctx.n(3, 5)
     for i, (fam, params) in enumerate(models):
         us = [-1j] + rng.sample([u for u in U_GRID if u != -1j], nu_u - 1)
-        exponent_probe(ctx, fam, params, us)
+        q = exponent_probe(ctx, fam, params, us)
         cumulant_probe(ctx, fam, params)
         spot, r, d = rng.choice([100.0, 1.0, 2500.0]), rng.choice([0.0, 0.02, 0.05]), rng.choice([0.0, 0.01, 0.03])
+        if q is not None:
+            fv_ = q["fv"]
+            native = make(fam, params).levy_triplet.representation.value
+            for _ in range(ctx.n(2, 4)):
+                wk = [rng.choice([1, 2, 3, 4] if fv_ else [2, 3, 4]) for _ in range(rng.randint(1, 4))]
+                if all(x == native for x in wk):
+                    wk[0] = 2 if native != 2 else 3
+                exponent_after_walk_probe(ctx, fam, params, wk, q, spot, r, d)
         routes_probe(ctx, fam, params, spot, r, d)
         if fam == "bs":
             continue
@@ -537,7 +635,11 @@ def replay(ctx, rec):
     d = rec["input"]
     p = rec.get("probe", "")
     fam, params = d["family"], d["params"]
-    if "walk" in d:
+    if d.get("history"):
+        q = exponent_probe(ctx, fam, params, [-1j, 0.7] + ([complex(*d["u"])] if "u" in d else []))
+        if q is not None:
+            exponent_after_walk_probe(ctx, fam, params, d["walk"], q, d["spot"], d["r"], d["d"])
+    elif "walk" in d:
         walk_probe(ctx, fam, params, d["walk"], truncation=d.get("truncation"))
     elif "grid" in d:
         ctmc_probe(ctx, fam, params, d["spot"], d["r"], d["d"], d["grid"])
@@ -554,7 +656,9 @@ def search(ctx):
     for fam, params in zoo.model_stream(rng, ctx.n(30, 120)):
         m = make(fam, params)
         fv = bool(m.levy_triplet.nu.jump_of_finite_variation())
-        exponent_probe(ctx, fam, params, [-1j, 0.7])
+        q = exponent_probe(ctx, fam, params, [-1j, 0.7])
+        if q is not None:
+            exponent_after_walk_probe(ctx, fam, params, draw_walk(rng, fv)[:4], q, 100.0, 0.02, 0.01)
         for _ in range(6):
             walk_probe(ctx, fam, params, draw_walk(rng, fv) + [m.levy_triplet.representation.value])
         routes_probe(ctx, fam, params, 100.0, 0.02, 0.01)
